@@ -10,7 +10,7 @@ import os
 
 from . import facts, sc
 from .cfg import CFG, Flow
-from .sym import Poly
+from .sym import Sym, Poly
 
 LIB = ("poulpy_core", "poulpy_bin_fhe", "poulpy_ckks")
 SCR_T = ("deref", "deref_mut", "borrow", "borrow_mut", "as_mut", "as_ref", "into", "from", "by_ref")
@@ -619,6 +619,8 @@ def run(res, tier):
     res.rule("SC-9", "the number of take_<kind>_slice vectors alive together on a path is at most the integer coefficient of the companion's `scalar * bytes_of(kind)` terms")
     res.rule("SC-8", "mirror-form pairs: every operand whose limb count / precision / length the size of a taken temporary depends on also occurs in the companion's term(s) of the same kind (dependence, not arithmetic)")
     res.rule("SC-10", "a guarded operation called on what is left after a take of its caller does not demand the caller's own companion query again")
+    res.rule("SC-11", "column-count arguments (declared names containing `col` / `rank`) of size queries, bytes_of and takes are not integer literals >= 2")
+    res.rule("SC-12", "an operation dispatching between scratch-consuming routines on quantities its query also receives is mirrored by a query deciding on the same quantities at the top level")
     res.rule("SC-7", "at a size-query call site, a usize argument that the caller knows under the name of one of the query's declared parameters (trait declaration names; the caller's own parameters take the names of its trait declaration) sits in that parameter's position")
     res.rule("SC-6", "a temporary created from a layout literal and handed to a nested operation is declared, in the companion, by the nested query evaluated on a literal with equal fields under the parameter correspondence")
     res.rule("SC-5", "only the scratch carver builds scratch views / typed slices from raw bytes")
@@ -643,6 +645,10 @@ def run(res, tier):
         res.floor("SC-9", "operations taking vectors of temporaries", n9, 2)
         n10 = sc10(p, res, pairs)
         res.floor("SC-10", "guarded operations called on the remainder of a guarded operation's scratch", n10, 10)
+        n11 = sc11(p, res)
+        res.floor("SC-11", "column-count arguments of size queries / takes", n11, 150)
+        n12 = sc12(p, res, pairs)
+        res.floor("SC-12", "dispatching operations", n12, 1)
         n7 = sc7(p, res)
         res.floor("SC-7", "size-query call sites with role-named scalar arguments", n7, 20)
         n6 = sc6(p, res, pairs)
@@ -694,6 +700,113 @@ def sc10(p, res, pairs):
                         "can never satisfy the nested guard" % (f.pretty, comp.name, rem, g.name, guard_of[same[0]].name), site=f.where(t["l"]))
             else:
                 res.ok("SC-10", {"op": f.pretty, "callee": p.fns[tg[0]].name, "callee_guard": guard_of[tg[0]].name} if n % 10 == 1 else None)
+    return n
+
+
+# ------------------------------------------------------------------ SC-12
+def _decision_chain(f):
+    """top-level dispatch decisions of a function: comparisons `name <op> const` (name = parameter or accessor) that are reached from the entry along paths on which every earlier
+    such comparison was false (an if / else-if chain, or the operands of `||`)"""
+    g = CFG(f)
+    sym = Sym(f, Flow(f))
+    dec = {}
+    for bi in g.reach:
+        blk = f.blocks[bi]
+        t = blk["t"]
+        if not t or t["k"] != "Switch":
+            continue
+        for st in blk["s"]:
+            if st[0] == "A" and st[2]["k"] == "Bin" and st[2]["op"] in ("Gt", "Ge", "Lt", "Le", "Eq", "Ne") and t["o"][0] in ("c", "m") and t["o"][1] == st[1]:
+                x, y = [sym.operand(o) for o in st[2]["o"]]
+                for u, v in ((x, y), (y, x)):
+                    if v.is_const():
+                        at = list(u.atoms())
+                        if len(at) == 1 and len(u.t) == 1:
+                            a = at[0]
+                            nm = a[1] if a[0] == "f" else (f.param_names().get(a[1]) if a[0] == "p" and not a[2] else None)
+                            if a[0] == "call" and len(a) == 3 and a[1] == f.uid:
+                                nm = (f.callee_def(f.blocks[a[2]]["t"]) or {}).get("n")
+                            if nm:
+                                dec[bi] = nm
+    out = []
+    seen = set()
+    st = [0]
+    while st:
+        b = st.pop()
+        if b in seen or b not in g.reach:
+            continue
+        seen.add(b)
+        if b in dec:
+            out.append(dec[b])
+            t = f.blocks[b]["t"]
+            st.extend(tb for v, tb in t["ts"] if v == 0)
+            if not any(v == 0 for v, tb in t["ts"]):
+                st.append(t["else"])
+        else:
+            st.extend(g.succ[b])
+    return out
+
+
+def sc12(p, res, pairs):
+    """dispatching operations: an operation that chooses between several scratch-consuming routines by comparing quantities the size query also receives must be mirrored by a query
+    that decides on the same quantities at the top level (a query that only looks at one of them sizes the other routines' callers for the wrong routine)"""
+    n = 0
+    for uid in sorted(pairs):
+        f, comp, corr, how = pairs[uid]
+        helpers = set()
+        for bi, t in f.calls():
+            d = f.callee_def(t) or {}
+            if "tr" in d or not d.get("u", "").startswith("poulpy_") or d.get("n", "").startswith("take_"):
+                continue
+            h = p.fn(d["u"])
+            if h is None or not h.blocks or h.impl_uid or h.trait_item:
+                continue
+            if any(a[0] in ("c", "m") and "Scratch<" in f.local_ty(a[1][0])["s"] for a in t["a"]):
+                helpers.add(h.name)
+        if len(helpers) < 2:
+            continue
+        n += 1
+        qparams = set(comp.param_names().values())
+        op_dec = [x for x in _decision_chain(f) if x in qparams]
+        q_dec = _decision_chain(comp)
+        missing = [x for x in op_dec if x not in q_dec]
+        if missing:
+            res.bad("SC-12", f.pretty, "dispatch-not-mirrored:%s" % ",".join(missing),
+                    "%s chooses among %s by testing %s at the top level; its companion %s receives %s but decides on %s only: with %s deciding for a routine the query sized another one"
+                    % (f.pretty, sorted(helpers), op_dec, comp.name, missing, q_dec, missing[0]), site=f.where())
+        else:
+            res.ok("SC-12", {"op": f.pretty, "decisions": op_dec, "query_decisions": q_dec})
+    return n
+
+
+# ------------------------------------------------------------------ SC-11
+def sc11(p, res):
+    """column counts handed to size queries, bytes_of and takes are never integer literals >= 2: such a literal is rank + 1 for one fixed rank"""
+    n = 0
+    for f in sorted(p.lib_fns(), key=lambda x: x.uid):
+        if not f.uid.startswith(("poulpy_core", "poulpy_bin_fhe", "poulpy_ckks")):
+            continue
+        sym = None
+        for bi, t in f.calls():
+            d = f.callee_def(t) or {}
+            nm = d.get("n", "")
+            if not (nm.endswith("_tmp_bytes") or nm.startswith("bytes_of") or nm.startswith("take_")):
+                continue
+            names = p.decl_args.get(d.get("u"))
+            if not names:
+                continue
+            if sym is None:
+                sym = Sym(f, Flow(f))
+            for i, a in enumerate(t["a"]):
+                if i >= len(names) or not ("col" in names[i] or "rank" in names[i]):
+                    continue
+                n += 1
+                cv = sym.operand(a).const_value() if sym.operand(a).is_const() else None
+                if cv is not None and cv >= 2:
+                    res.bad("SC-11", f.pretty, "literal-columns:%s:%s=%d" % (nm, names[i], cv),
+                            "%s passes the literal %d as `%s` of %s: the size is right for rank %d only" % (f.pretty, cv, names[i], nm, cv - 1), site=f.where(t["l"]))
+                else:
+                    res.ok("SC-11")
     return n
 
 
